@@ -1,14 +1,25 @@
 # source of the sender's retry/escalation decision code, as printed by harness/extract/c19.go;
-# Model/ClusterSender.lean (sendFunc, recvFinal, direct) is its hand transcription: when this changes,
-# revisit the Lean transcription first, then this expectation.
+# Model/ClusterSender.lean (sendFunc, recvFinal, direct; put, dispatch) and Model/ClusterExec.lean (attStep, step:
+# the position split, the reply loop of a node batch, Exec's return) are its hand transcription: when this
+# changes, revisit the Lean transcription first, then this expectation.
 EXPECTED_SENDER_FACTS = {
     "c19_sendFunc": "{ maxRetries := 0 for { if recvFailed.Load() { <-replayWait.Done() if err := replayWait.Error(); err != nil { return err } return errors.New(\"a pipelined batch failed\") } err := sendFuncOnce(shouldInTransaction, shouldUpdateCP, lastOffset) if err == nil { return err } if replayWait.IsClosed() { return err } maxRetries++ if errors.Is(err, common.ErrMove) || errors.Is(err, common.ErrAsk) || errors.Is(err, common.ErrCrossSlots) { if ro.cfg.CanTransaction && ro.cfg.Redis.IsCluster() { return handleDirectError(err) } if maxRetries < 3 { replayWait.Sleep(1 * time.Second) continue } err = handleDirectError(err) ro.logger.Errorf(\"send error : error(%v), offset(%d)\", err, lastOffset) return err } else if isPipeline { if maxRetries < 3 { replayWait.Sleep(1 * time.Second) continue } ro.logger.Errorf(\"send error : error(%v), offset(%d)\", err, lastOffset) } return err } }",
     "c19_handleError": "{ recvFailed.Store(true) if errors.Is(err, common.ErrMove) || errors.Is(err, common.ErrAsk) || errors.Is(err, common.ErrCrossSlots) { if ro.cfg.CanTransaction && ro.cfg.Redis.IsCluster() { err = handleDirectError(err) } ro.logger.Errorf(\"send error : error(%v), offset(%d)\", err, bat.offset) } failCounter.Add(float64(bat.cmdCounter), ro.cfg.InputName) batchSendCounter.Add(1, ro.cfg.InputName, transactionLabel, \"error\") replayWait.Close(err) }",
-    "c19_handleDirectError": "{ if errors.Is(err, common.ErrMove) || errors.Is(err, common.ErrAsk) { return errors.Join(ErrRedisTypologyChanged, err) } if errors.Is(err, common.ErrCrossSlots) { return errors.Join(ErrBreak, err) } return err }"
+    "c19_handleDirectError": "{ if errors.Is(err, common.ErrMove) || errors.Is(err, common.ErrAsk) { return errors.Join(ErrRedisTypologyChanged, err) } if errors.Is(err, common.ErrCrossSlots) { return errors.Join(ErrBreak, err) } return err }",
+    # session 4: the code Model/ClusterExec.lean (split, clientOk/chaseExec/fail/ack) and ClusterSender.put/dispatch transcribe
+    "c19_positionSplit": "if !isPipeline && shouldUpdateCP && ro.cfg.EnableResumeFromBreakPoint && ro.cfg.Redis.IsCluster() && batcher.Len() > 0 { if shouldInTransaction { batcher.Put(\"exec\") } if _, err := batcher.Exec(); err != nil { return failed(err) } batcher = conn.NewBatcher(isPipeline) if shouldInTransaction { batcher.Put(\"multi\") } }",
+    "c19_txnPipeFallback": "if ro.cfg.CanTransaction && ro.cfg.Redis.IsCluster() && !ro.bisyncEnabled() { ro.cfg.Redis.GetClusterOptions().HandleMoveErr = false ro.cfg.Redis.GetClusterOptions().HandleAskErr = false if ro.cfg.ReplayPipeline && ro.cfg.EnableResumeFromBreakPoint { ro.logger.Warnf(\"transactional replay to a cluster with resuming from the target : pipeline mode is switched off\") ro.cfg.ReplayPipeline = false } }",
+    "c19_doBatch": "{ conn, err := batch.node.getConn() if err != nil { batch.err = err batch.done <- 1 return } exec := util.OpenCircuitExec{} for i := range batch.cmds { exec.Do(func() error { return conn.send(batch.cmds[i].cmd, batch.cmds[i].args...) }) } err = exec.Do(func() error { return conn.flush() }) if err != nil { batch.err = err conn.shutdown() batch.done <- 1 return } for i := range batch.cmds { reply, err := conn.receive() if err != nil { if err == common.ErrNil { continue } batch.err = err conn.shutdown() batch.done <- 1 return } reply, err = bat.cluster.handleReply(batch.node, reply, batch.cmds[i].cmd, batch.cmds[i].args...) if err != nil { batch.err = err conn.shutdown() batch.done <- 1 return } batch.cmds[i].reply, batch.cmds[i].err = reply, err } batch.node.releaseConn(conn) batch.done <- 1 }",
+    "c19_receiveReply": "{ defer util.RecoverCallback(func(e interface{}) { batch.err = fmt.Errorf(\"panic : %v\", e) batch.done <- 1 }) if batch.request == nil { batch.err = ErrNoConnection batch.done <- 1 return } replies, err := batch.request.Wait() if err != nil { batch.err = err batch.done <- 1 return } for i := range batch.cmds { reply := replies[i] reply, err = bat.cluster.handleReply(batch.node, reply, batch.cmds[i].cmd, batch.cmds[i].args...) if err != nil { batch.err = err batch.done <- 1 return } batch.cmds[i].reply, batch.cmds[i].err = reply, err } batch.done <- 1 }",
+    "c19_execReturn": "{ if bat.err != nil { return nil, bat.err } if bat == nil || bat.batches == nil || len(bat.batches) == 0 { return []interface{}{}, nil } for i := range bat.batches { go bat.doBatch(&bat.batches[i]) } for i := range bat.batches { <-bat.batches[i].done } var replies []interface{} for _, i := range bat.index { if bat.batches[i].err != nil { return nil, bat.batches[i].err } replies = append(replies, bat.batches[i].cmds[0].reply) bat.batches[i].cmds = bat.batches[i].cmds[1:] } if err := common.CheckRepliesError(replies); err != nil { return nil, err } return replies, nil }",
+    "c19_dispatch": "{ if bat == nil || bat.batches == nil || len(bat.batches) == 0 { return nil } if bat.err != nil { return bat.err } for i := range bat.batches { batch := &bat.batches[i] req := newNodePipelineRequest( func(conn *redisConn) error { exec := util.OpenCircuitExec{} for j := range batch.cmds { cmd := batch.cmds[j] exec.Do(func() error { return conn.send(cmd.cmd, cmd.args...) }) } return exec.Do(func() error { return conn.flush() }) }, func(conn *redisConn) ([]interface{}, error) { replies := make([]interface{}, 0, len(batch.cmds)) for range batch.cmds { reply, err := conn.receive() if err != nil { if err == common.ErrNil { replies = append(replies, nil) continue } return nil, err } replies = append(replies, reply) } return replies, nil }, ) batch.request = req if err := bat.pipeline.getNodePipeline(batch.node).Submit(req); err != nil { batch.err = err return err } } return nil }",
+    "c19_submit": "{ select { case <-p.closeCh: return fmt.Errorf(\"node pipeline closed: %s\", p.node.address) case p.reqCh <- req: return nil } }",
+    "c19_handleReply": "{ resp := common.CheckReply(reply) switch resp { case common.KrespOK, common.KrespError: return reply, nil case common.KrespMove: if !cluster.handleMoveError { return nil, common.ErrMove } if ret, err := cluster.handleMove(node, reply.(common.RedisError).Error(), cmd, args); err != nil { if sentNoReply(err) { return ret, fmt.Errorf(\"handle move failed[%w]\", err) } return ret, errors.Join(common.ErrMove, fmt.Errorf(\"handle move failed[%w]\", err)) } else { return ret, nil } case common.KrespAsk: if !cluster.handleAskError { return nil, common.ErrAsk } if ret, err := cluster.handleAsk(node, reply.(common.RedisError).Error(), cmd, args); err != nil { if sentNoReply(err) { return ret, fmt.Errorf(\"handle ask failed[%w]\", err) } return ret, errors.Join(common.ErrAsk, fmt.Errorf(\"handle ask failed[%w]\", err)) } else { return ret, nil } case common.KrespConnTimeout: if ret, err := cluster.handleConnTimeout(node, cmd, args); err != nil { return ret, fmt.Errorf(\"handle timeout failed[%w]\", err) } else { return ret, nil } } panic(\"unreachable\") }",
+    "c19_clusterDo": "{ reply, err := node.do(cmd, args...) if err != nil { if err == common.ErrNil { return nil, err } return nil, &sentNoReplyError{fmt.Errorf(\"Do failed[%v]\", err)} } return cluster.handleReply(node, reply, cmd, args...) }",
 }
 
 PROP = {
-    "lean_modules": ["GunYu.Props.C19"],
+    "lean_modules": ["GunYu.Props.C19", "GunYu.Props.C19Exec"],
     "audit_namespaces": ["GunYu.Props.C19"],
     "required_theorems": [
         "GunYu.Props.C19.per_key_order_partial",
@@ -35,6 +46,19 @@ PROP = {
         "GunYu.Props.C19.stored_position_covered_blocking",
         "GunYu.Props.C19.stored_position_covered_pipelined_false",
         "GunYu.Props.C19.sender_sends_at_most_three",
+        "GunYu.Props.C19.exec_refines_segments",
+        "GunYu.Props.C19.exec_blocking_disciplined",
+        "GunYu.Props.C19.exec_cut_is_prefix",
+        "GunYu.Props.C19.exec_ack_complete",
+        "GunYu.Props.C19.exec_never_skip",
+        "GunYu.Props.C19.exec_downward_closed",
+        "GunYu.Props.C19.exec_stored_position_covered",
+        "GunYu.Props.C19.exec_effective_prefix",
+        "GunYu.Props.C19.exec_stored_position_covered_unsplit_false",
+        "GunYu.Props.C19.txn_batch_one_node",
+        "GunYu.Props.C19.dispatch_error_prefix",
+        "GunYu.Props.C19.dispatch_error_one_node_submits_nothing",
+        "GunYu.Props.C19.one_node_batch_submitted_once",
     ],
     "expected_facts": EXPECTED_SENDER_FACTS,
     "harness": [{"name": "C19", "pkg": "./pkg/redis/client/cluster/", "test": "TestVerifC19",
@@ -73,11 +97,40 @@ PROP = {
             "mechanism: offset-sent-after-failed-answer (fixed b47e97e: forced scenario nofollow-pipe, moved slot last in the stream, "
             "its node stalled until the sender is idle, client Close held until the write arrives) / offset-applied-before-failed-answer "
             "(cpbatch-block, cpbatch-pipe: data and checkpoint HSETs in one batch, data node stalled until the checkpoint node applied the "
-            "offset, then -ERR); the `cause` of C19-F1 (D22) is set by the monitor only when the trace shows the mechanism",
+            "offset, then -ERR); the `cause` of C19-F1 (D22) is set by the monitor only when the trace shows the mechanism. "
+            "SESSION 4 - operational model (Model/ClusterExec.lean), op c19x: every sequential plain scenario of the client harness with keyed "
+            "one-slot commands (sync/syncnf/stxn, pipe/stxnpipe with window 1; half of the generated scenarios are single-key only; group = key, or "
+            "slot when the schedule has no ASK phase) and every blocking scenario of C19out (a wrapper around the real cluster client logs "
+            "Exec/Dispatch/Receive boundaries into the double's trace) is translated into B (Put+Exec of the queue [p,q) with the routes) / x r (the "
+            "queue's node executed / refused) / c (followed redirect executed) / A d (nil) / F:rd F:ot (error class) / ps px pr pc (position batch "
+            "sent, applied, refused, applied after a followed redirect) / R (end of run) and replayed through ClusterExec.step with split = 1 "
+            "(clientOk inserted by the driver); the driver prints accept, QuietRun, the closed segment events, ClusterSegments.run + Disciplined + "
+            "PrefixRun evaluated on them, the real log and the stored position - the harness prints them from its own bookkeeping. C19out restart "
+            "scenarios (restart-txn-block, restart-plain-block): after the run ended with an error a SECOND run (new output, new client) from the "
+            "position stored on the target; monitors over the whole history: per-key-skip, lost-command after the restart, nothing twice within "
+            "the second run. Monitor per-key-skip in both harnesses (time-ordered never-skip on the double's log; sequential modes; runs without an "
+            "error REPLY). Corpus chase-fault.txt (a followed redirect cut by a lost connection: sync, pipe, two queues). Dispatch failure: 40/400 "
+            "ops c19d on the real batch2.Put/Dispatch (transactional or not, 1-5 puts over 3 nodes, a Put the router refuses, one node pipeline "
+            "closed) vs ClusterSender.puts/dispatch, monitor txn-dispatch-failed-but-submitted; C19out put-error scenarios (an MSET over two nodes "
+            "in the stream; txn-pipe, plain-pipe, txn-block): op c19s attempts / submitted / final vs sendFunc + onceP + submitted. Forced "
+            "txn-pipe-resume (repaired 2aa2a9b). Coverage counters exec_model_* / dispatch_fault_* / puterr_traces in the evidence. After the r4 "
+            "review: the expected c19x lines are COMPUTED from the harness's own observations (vfdoubles.ExecExpect: auto / disc / prefix from the "
+            "observed segments, quiet from refuse-then-execute of a group in one queue), not constants: adversarial ping-pong corpus scenarios "
+            "(sync, pipe, two queues) are replayed too (quiet false, prefix false), the single-flush pipelined scenario cpbatch-pipe-cb with split = 0 "
+            "(a storing cut: disc false; its monitor verdict is C19-F2); the client harness classifies Exec errors with errors.Is on the sentinels "
+            "(the redirect guard and the in-segment retry F:rd B are exercised there: ~20 / ~5 traces per run); mode skips are counted "
+            "(exec_model_skipped_mode). C19out forced chase-ac (a FOLLOWED data request applied, reply lost) and cp-chase-ac (the same on the "
+            "position write, then a cut re-send, then a restart; repaired d698491) with monitor stale-value-below-stored-position (the last "
+            "execution of a key below the stored position is its last command below it; blocking modes; = exec_effective_prefix); "
+            "plain-block-crossput (a two-key command over two nodes: ErrCrossSlots from Put, retried three times by the plain sender, F:cs). "
+            "txn-dispatch-failed-but-submitted flags the SUBMISSION of a transactional batch whose Dispatch failed - a precursor of the double "
+            "execution the property forbids (the sender dispatches again), stricter than the statement",
     "trusted": [
         "Redis Cluster redirection rules as transcribed in Model/ClusterRoute.lean (answer, tanswer, applyMig) and in the cluster "
         "double vf_c19_double_test.go (getNodeByQuery: MOVED/ASK/ASKING/TRYAGAIN/CROSSSLOT, EXEC re-check over all queued keys, "
         "ASKING kept through MULTI); independent bitwise CRC16 for the double's slots",
+        "a node answers OK only after it executed the command, processes the requests of one connection in order and stops at a closed connection "
+        "(the double; Redis); the harness's translation of a trace into model events (which answer is a first-hand one, which a followed redirect)",
         "each request is one atomic step of a node (Redis is single-threaded per command); the double serialises all nodes under "
         "one mutex and that order is the trace",
     ],
@@ -86,6 +139,8 @@ PROP = {
         "(re-sends, final error) per mode and error class plus the execution-log monitor; not regenerated from the source",
         "model is protocol-level and hand-written; tied by trace membership (every observed run must be a run of the model, node "
         "answers recomputed by the model) on sampled interleavings - goroutine scheduling and socket timing are the runtime's",
+        "ClusterExec.QuietRun (operational model): a node that refused a command of a key does not execute a later command of that key of the same "
+        "queue while the refused one is unexecuted; shown necessary (xevsLoud in Props/C19Exec.lean); evaluated on every replayed run (`quiet` line)",
         "QuietRun: no node queue that still holds an unfollowed redirect of a key starts serving that key again inside the batch "
         "(A->B->A ping-pong); per_key_order_stmt_false shows the hypothesis is necessary for any pipelining client",
         "bytes already sent on an aborted connection are consumed by the node before the sender's retry (1 s back-off in output.go)",
@@ -93,26 +148,46 @@ PROP = {
         "C19-F1 (D22) recorded finding); traces of the current code that violate it are reported as `reject route-split` by both sides",
     ],
     "partial": [
-        "transactional + PIPELINED sender and a non-redirect error returned by Dispatch itself: sendFunc dispatches the batch again "
-        "(example in Props/C19.lean: sendFunc <true,true> [other, ok] = 2 sends); no double execution follows only because batch2.Dispatch "
-        "of a one-node batch fails before anything is submitted (Put error / closed node pipeline) - argued from the code, not proved, "
-        "not reachable by the fault injection (faults surface at Receive)",
-        "composition over segments (Model/ClusterSegments.lean) is proved for EVERY list of segments/events, but it is a bookkeeping "
-        "automaton: what every event must satisfy is ASSUMED (guards of `step`: AppOK = within its range, nothing twice; Complete = an "
-        "acknowledged batch executed everything, per group in order - the content of per_key_order_partial and the bridge "
-        "acked_batch_executed_in_order) together with two named hypotheses: Disciplined (blocking discipline: a batch that was not "
-        "acknowledged stores no position) and, for segments_never_skip / segments_executed_downward_closed, PrefixRun (fault model: a cut "
-        "batch executes per group a prefix of its part; an out-of-order cut is a run of the automaton but not of the fault model - example "
-        "in Props). Derived: restart-from-stored, position arithmetic, the REAL per-group log never skips across replays "
-        "(segments_never_skip), the effective stream (keepLast: last execution of every command = final state for overwriting commands; "
-        "says nothing about APPEND/INCR-style repetition, which the property allows only as replay after a lost acknowledgement). "
-        "Disciplined holds for the BLOCKING modes on a cluster target, plain (4140441) and transactional (5c65a57: the position goes in a "
-        "batch of its own after the data batch; before that the cluster client's dropping of MULTI/EXEC let it ride in the same pipeline - "
-        "C19out forced scenario txn-block-resume keeps watching it); it does NOT hold for the pipelined modes (C19-F2). Not Lean lemmas: PrefixRun from ClusterRoute "
-        "(with grp = key it should follow from per_key_order_partial; with grp = connection it is false under ASK), the identification of "
-        "ClusterRoute ids/keys with stream positions/groups, byte offsets vs command indices - exercised by the C19out monitors",
-        "pipelined modes: the composition statement is false (stored_position_covered_pipelined_false, decide-checked counter-witness "
-        "= C19-F2; reorder = C19-F1); stored_position_covered_stmt is the full statement kept for them",
+        "transactional + PIPELINED sender and a non-redirect error returned by Dispatch itself: sendFunc dispatches the queue again; PROVED harmless "
+        "(one_node_batch_submitted_once with txn_batch_one_node, dispatch_error_prefix: a transactional batch has one node batch, a failed Dispatch has "
+        "queued a strict prefix of the node batches) on the model ClusterSender.put/dispatch/submitted, tied by the dispatch-fault ops on the real "
+        "batch2 (closed node pipeline, refused Put) and by the put-error scenarios of C19out on the real sender (3 attempts, nothing reached a node); "
+        "still outside: nodePipeline.Submit is taken as 'queued or refused' from its pinned source (c19_submit); a Submit that wins the race against a "
+        "closed pipeline queues a request nobody writes (counted, dispatch_fault_closed_pipeline_accepted) - Receive then waits for ever: liveness; the "
+        "hand-over failure after a successful Dispatch (run closed) is the separate decision sendFuncClosed, covered by scenario close-outside",
+        "composition over segments: the guards of the bookkeeping automaton (AppOK, Complete) and the hypotheses Disciplined / PrefixRun are now DERIVED "
+        "(exec_refines_segments, exec_blocking_disciplined, exec_cut_is_prefix, exec_ack_complete) from an operational model of the batch attempt and the "
+        "blocking sender (Model/ClusterExec.lean: node queues in any interleaving, cut anywhere, redirects followed at reply time, position batch after "
+        "the acknowledgement, retry after a redirect error, restart at any moment), and exec_never_skip / exec_downward_closed / "
+        "exec_stored_position_covered state the composition for the target's REAL log and stored position with the cluster hypothesis QuietRun only. "
+        "What remains: (a) that model is hand-written; its guards (a node processes its queue in order, one key in one node queue of a batch, a redirect "
+        "is followed only after the earlier replies of the queue, Exec returns nil only after a good reply to everything, the position batch is put "
+        "together after the data batch returned nil, only a redirect error is retried) are tied to the code by trace membership on the runs of both "
+        "harnesses (op c19x) and by pinned source (c19_doBatch, c19_receiveReply, c19_execReturn, c19_positionSplit), not regenerated; (b) its fault "
+        "alphabet has redirects, lost connections / cuts anywhere and failed followed redirects, NOT error replies: a node goes on with the commands "
+        "pipelined behind an error reply and the client goes on following later redirects of the queue even after an error reply to a followed one "
+        "(cluster.go handleReply returns such a reply as a reply; observed) - the gap this leaves in a key cannot be prevented by a pipelining client. "
+        "A LOST reply (of a data command, of a followed request, of the position write) is in: `fail other`, the run ends, the request may still be "
+        "applied afterwards (chaseExec / posChaseExec stay enabled after `fail other`); `fail redirect` means refused and NOT delivered elsewhere - "
+        "true of the code since d698491 (before, handleReply reported a lost reply of a followed request as ErrMove/ErrAsk and the plain sender re-sent "
+        "the queue below a position that request had stored: r4 review, scenario cp-chase-ac); `fail crossslot` = the recorded Put error, returned "
+        "before anything is sent, retried by the plain sender; what executes of an OLD attempt after the retry's Put (bytes still on an aborted "
+        "connection) is excluded by the back-off assumption, a late arrival makes the harness skip the trace (stray-answer / re-arrival), not reject it; (c) "
+        "ClusterExec and ClusterRoute are two models of the same client, each tied to the code, with no refinement lemma between them: ClusterRoute "
+        "computes the node answers from the migration state, ClusterExec takes them as events under QuietRun; identification of stream positions with "
+        "command ids / byte offsets is done by the harness (position = index of the command, offset = its end); (d) keepLast theorems "
+        "(segments_effective_prefix, segments_clean_final_equals_spec, exec_effective_prefix = the FINAL-VALUE statement on the real log below the "
+        "stored position; exec_never_skip alone does not bound the final value) say nothing about APPEND/INCR-style repetition, which the property "
+        "allows only as replay; (e) blocking modes only: the operational model has one attempt at a time (a single-flush pipelined run is replayed with "
+        "split = 0 to show a storing cut); (f) of the required theorems exec_stored_position_covered_unsplit_false, dispatch_error_prefix, "
+        "txn_batch_one_node, recv_failed_sends_nothing, stored_position_covered_pipelined_false restate a definition / a guard of the model (their "
+        "content is the transcription, pinned as source facts); Complete's 'everything executed' and AppOK's 'nothing twice' are one step from the "
+        "guards of ack / clientOk / Waiting - the derived content is the per-key ORDER and PREFIX part",
+        "pipelined modes: the composition statement is false (stored_position_covered_pipelined_false, exec_stored_position_covered_unsplit_false: "
+        "decide-checked counter-witnesses = C19-F2; reorder = C19-F1); stored_position_covered_stmt / exec_stored_position_covered_stmt are the full "
+        "statements kept for them. The transactional pipelined resumable combination no longer exists (2aa2a9b: falls back to blocking). Without "
+        "resuming from the target the same mechanism moves the IN-MEMORY position (setMemCP when Dispatch returns, before the acknowledgement): not "
+        "driven by the harness",
         "the transaction system T* models txnBatcher (used by bisync); the transactional path of sendCmdsBatch goes through Batch/batch2 with "
         "Put(multi)/Put(exec) that the cluster client drops (one-node constraint, no atomicity): covered by the PLAIN system on traces of the "
         "harness modes stxn/stxnpipe and by C19out, with no theorem of its own about the one-node constraint",
@@ -137,7 +212,9 @@ MANIFEST = {
             "interleaving; MOVED/ASK(+ASKING)/error answers; sender retry segments): executed commands of each key are strictly increasing in "
             "source order per run segment (under the no-ping-pong hypothesis, shown necessary), every command of an acknowledged batch was "
             "executed by the slot owner or the ASK-designated importing node, an unexecuted command makes `ok` impossible, transactions execute "
-            "at most once per run and in order when used sequentially. Tie: traces of the real client against a 3-4 node cluster double are "
+            "at most once per run and in order when used sequentially. Composition over sender segments (retries, restarts from the stored position) "
+            "is derived from an operational model of the batch attempt and the blocking sender (refinement to the segment automaton: never skips, stored "
+            "position covered, no re-dispatch of a transactional batch reaches a node twice). Tie: traces of the real client against a 3-4 node cluster double are "
             "replayed through the model (membership) and per-node/per-key sequences compared; an independent Go monitor checks the property on "
             "the double's execution log.",
     "note": "trusted: Lean kernel, Redis redirection rules (model + double), harness; model hand-written, tied by trace membership; "
